@@ -166,9 +166,7 @@ func (wt *c18Watch) sync(admin *clientv3.Client) ([]c18Event, error) {
 	wt.next++
 	n := wt.next
 	wt.mu.Unlock()
-	ctx, cancel := context.WithTimeout(context.Background(), 30*time.Second)
-	defer cancel()
-	if _, err := admin.Put(ctx, c18Sentinel, strconv.FormatInt(n, 10)); err != nil {
+	if _, err := admin.Put(context.Background(), c18Sentinel, strconv.FormatInt(n, 10)); err != nil {
 		return nil, fmt.Errorf("sentinel put: %w", err)
 	}
 	tm := time.AfterFunc(60*time.Second, func() {
@@ -258,6 +256,8 @@ func c18StartEtcd(t *testing.T) []string {
 		cfg.LogLevel = "error"
 		cfg.LogOutputs = []string{filepath.Join(cfg.Dir, "etcd.log")}
 		cfg.UnsafeNoFsync = true
+		cfg.BackendBatchInterval = 2 * time.Second // fewer bbolt commits (reads are served from the write buffer)
+		cfg.BackendBatchLimit = 100000
 		port := func() int {
 			ln, err := net.Listen("tcp", "127.0.0.1:0")
 			if err != nil {
@@ -550,16 +550,9 @@ func (n *c18Node) gated(kind, desc string, deletes bool, exec func(ctx context.C
 	}
 	var err error
 	var res string
-	w.e.out.do(func() {
-		ctx, cancel := context.WithTimeout(context.Background(), 30*time.Second)
-		defer cancel()
-		res, err = exec(ctx)
-	})
-	if err != nil && errors.Is(err, context.DeadlineExceeded) {
-		w.mu.Lock()
-		w.trouble = "real etcd call exceeded the 30s watchdog: " + kind
-		w.mu.Unlock()
-	}
+	// context.Background(): with a cancellable context gRPC starts one more goroutine per call, which is
+	// expensive under the race detector; a hung etcd is caught by the leg's go-test timeout (exit 3)
+	w.e.out.do(func() { res, err = exec(context.Background()) })
 	if g != nil {
 		w.mu.Lock()
 		if err != nil {
@@ -2122,7 +2115,7 @@ func TestVerifC18Sched(t *testing.T) {
 			r.Count("scripted_cases", 1)
 		}
 	}
-	for rep := 0; rep < r.N(12, 150); rep++ {
+	for rep := 0; rep < r.N(10, 120); rep++ {
 		for _, sc := range c18RacyScripts {
 			sc := sc
 			fl := []string{"partition", "group"}[rep%2]
@@ -2132,7 +2125,7 @@ func TestVerifC18Sched(t *testing.T) {
 			r.Count("racy_scripted_cases", 1)
 		}
 	}
-	n := r.N(260, 6000)
+	n := r.N(160, 4000)
 	for ci := 0; ci < n; ci++ {
 		rng := r.Rand(ci)
 		fl := "partition"
@@ -2150,4 +2143,163 @@ func TestVerifC18Sched(t *testing.T) {
 	r.Floor("points_with_stale_believer_and_new_owner", 10)
 	r.Floor("scripted_cases", int64(2*len(c18Scripts)))
 	_ = sort.Strings
+}
+
+// ---------------------------------------------------------------------------
+// exhaustive enumeration of small programs: every interleaving (at etcd-request granularity) of a fixed
+// per-broker program with a budget of expiry / notice placements. Stateless depth-first search: a schedule
+// is a list of choice indices; each run re-executes the prefix against fresh managers.
+
+type c18EnumOp struct {
+	kind string // acquire | release | release_all | restart
+	res  int
+}
+
+type c18EnumProg struct {
+	name    string
+	ops     [3][]c18EnumOp
+	overlap [3]bool // the broker's next call may start while its previous one is still in flight
+	expire  int     // server-side expiries that may be placed (of any live lease)
+	notice  int     // notices that may be placed before the end (the rest are delivered when the case settles)
+	delayed bool    // every request may also take effect with its response delivered later
+}
+
+func (w *c18World) enumChoices(p *c18EnumProg, pc *[3]int, exp, noti *int) []func() {
+	var cs []func()
+	opsLeft := false
+	for i := range p.ops {
+		i := i
+		if pc[i] >= len(p.ops[i]) {
+			continue
+		}
+		opsLeft = true
+		op := p.ops[i][pc[i]]
+		n := w.nodes[i]
+		switch {
+		case op.kind == "restart":
+			cs = append(cs, func() { pc[i]++; w.restart(i) })
+		case p.overlap[i] || w.running(n) == 0:
+			cs = append(cs, func() { pc[i]++; w.startOp(w.nodes[i], op.kind, op.res) })
+		}
+	}
+	pend := w.allPending()
+	for _, g := range pend {
+		g := g
+		cs = append(cs, func() { w.releaseGate(g, c18OK) })
+		if p.delayed && g.kind != "resp" && g.kind != "grant" {
+			cs = append(cs, func() { w.releaseGate(g, c18OKDelayed) })
+		}
+	}
+	if !opsLeft && len(pend) == 0 {
+		return nil // only expiry/notice could follow: they remove ownership, settle() delivers them
+	}
+	w.mu.Lock()
+	leases := append([]*c18Lease(nil), w.leases...)
+	w.mu.Unlock()
+	for _, ls := range leases {
+		ls := ls
+		w.mu.Lock()
+		dead, ka, noticed, crashed, auto := ls.serverDead, ls.hasKA, ls.noticed, ls.owner.crashed, ls.owner.auto
+		w.mu.Unlock()
+		if auto {
+			continue
+		}
+		if *exp > 0 && !dead {
+			cs = append(cs, func() { *exp--; w.expire(ls) })
+		}
+		if *noti > 0 && ka && !noticed && !crashed {
+			cs = append(cs, func() { *noti--; w.notice(ls) })
+		}
+	}
+	return cs
+}
+
+var c18EnumProgs = []struct {
+	tier string // "quick": run in both tiers; "thorough": thorough only
+	p    c18EnumProg
+}{
+	{"quick", c18EnumProg{name: "A:acq,rel|B:acq|1 expiry", ops: [3][]c18EnumOp{{{"acquire", 0}, {"release", 0}}, {{"acquire", 0}}, nil}, expire: 1}},
+	{"thorough", c18EnumProg{name: "A:acq,rel|B:acq|1 expiry,1 notice", ops: [3][]c18EnumOp{{{"acquire", 0}, {"release", 0}}, {{"acquire", 0}}, nil}, expire: 1, notice: 1}},
+	{"thorough", c18EnumProg{name: "A:acq,restart,acq|B:acq|1 expiry", ops: [3][]c18EnumOp{{{"acquire", 0}, {"restart", 0}, {"acquire", 0}}, {{"acquire", 0}}, nil}, expire: 1}},
+	{"thorough", c18EnumProg{name: "A:acq,(rel||acq)|B:acq", ops: [3][]c18EnumOp{{{"acquire", 0}, {"release", 0}, {"acquire", 0}}, {{"acquire", 0}}, nil}, overlap: [3]bool{true, false, false}}},
+	{"thorough", c18EnumProg{name: "A:acq,relall|B:acq,rel|C:acq|delayed responses", ops: [3][]c18EnumOp{{{"acquire", 0}, {"release_all", 0}}, {{"acquire", 0}, {"release", 0}}, {{"acquire", 0}}}, delayed: true}},
+}
+
+const c18EnumRule = "for each listed small program (per-broker call sequences over one resource, budgets of server-side expiries / notices), EVERY schedule — which broker starts its next call, which parked etcd request is executed next, where the expiry/notice is placed — is executed against fresh real managers by stateless depth-first search (a schedule = list of choice indices, re-executed from the start); oracles (a) (b) (c) of the sched leg run after every step; exhaustive=true when every program's tree was exhausted within the tier's cap"
+
+func TestVerifC18Enum(t *testing.T) {
+	r := verifkit.Start(t, "C18", "enum")
+	defer r.Finish(c18EnumRule,
+		"same boundary model as the sched leg (faked KeepAlive, one etcd request in flight at a time, single-node etcd)",
+		"choices are enumerated in a fixed order; a schedule prefix replays identically because no step of this leg depends on goroutine scheduling")
+	e := newC18Env(t, r)
+	defer e.close()
+	limit := r.N(1500, 60000)
+	allExhausted := true
+	for _, ep := range c18EnumProgs {
+		if ep.tier == "thorough" && !r.Thorough() {
+			continue
+		}
+		p := ep.p
+		for _, fl := range []string{"partition", "group"} {
+			if fl == "group" && !r.Thorough() {
+				continue // same LeaseManager code behind a different prefix: the quick tier enumerates one flavour
+			}
+			var path []int
+			count, exhausted := 0, false
+			maxDepth := 0
+			for count < limit {
+				var widths []int
+				synctest.Test(t, func(t *testing.T) {
+					w := e.newWorld(fl, "enum:"+p.name, 1)
+					defer w.cleanup()
+					var pc [3]int
+					exp, noti := p.expire, p.notice
+					for d := 0; d < 200 && w.ok(); d++ {
+						cs := w.enumChoices(&p, &pc, &exp, &noti)
+						if len(cs) == 0 {
+							break
+						}
+						widths = append(widths, len(cs))
+						idx := 0
+						if d < len(path) {
+							idx = path[d]
+						}
+						if idx >= len(cs) {
+							w.trouble = fmt.Sprintf("enumeration replay diverged at depth %d (%d choices, wanted #%d)", d, len(cs), idx)
+							break
+						}
+						cs[idx]()
+					}
+					if w.ok() {
+						w.settle()
+					}
+					w.finishCase(fmt.Sprintf("enum:%s/%s/%v", p.name, fl, path), count == 0 && fl == "partition")
+				})
+				count++
+				if len(widths) > maxDepth {
+					maxDepth = len(widths)
+				}
+				full := make([]int, len(widths))
+				copy(full, path)
+				d := len(widths) - 1
+				for d >= 0 && full[d]+1 >= widths[d] {
+					d--
+				}
+				if d < 0 {
+					exhausted = true
+					break
+				}
+				path = append(full[:d:d], full[d]+1)
+			}
+			if !exhausted {
+				allExhausted = false
+			}
+			r.Note("enum "+p.name+"/"+fl, map[string]any{"schedules": count, "exhausted": exhausted, "max_depth": maxDepth})
+			r.Count("enumerated_schedules", int64(count))
+			t.Logf("c18 enum %q/%s: %d schedules, exhausted=%v, max depth %d", p.name, fl, count, exhausted, maxDepth)
+		}
+	}
+	r.Exhaustive(allExhausted)
+	r.Floor("enumerated_schedules", 100)
 }
